@@ -20,6 +20,6 @@ def run(ctx):
     ctx.exhaustive = True
     ctx.rule = ("one evaluation = one (head, parser in {RequestHeader.Read, ResponseHeader.Read, live Server}, continuation, joined/split) parse; "
                 "distinct_nontrivial = heads containing a bare LF or a CR outside CRLF; exhaustive over heads with start-line remainder in {'', CR, 'a'}, "
-                "one header line of <= %d bytes or two of <= %d bytes over {CR, a, ':', SP}, blank line CRLF or LF" % (m1, m2))
+                "one header line of <= %d bytes or two of <= %d bytes over {CR, a, ':', SP}, blank line CRLF or LF, plus grammar-shaped lines name ':' OWS value OWS (GLines/GSmall of HeadDelimGen.tla)" % (m1, m2))
     ctx.assumptions = ["alphabet {CR, LF, letter 'a', ':', SP}; line-content bounds %d / %d" % (m1, m2),
                        "continuation menu of 9 byte strings (HeadDelim.tla Conts)"]
